@@ -108,9 +108,11 @@ PROPS.update({
     'C18': P('other', 'contract-based deductive verification of the query code: the nested function _ImmutableTaskList.__call__.search is symbolically executed from the real source (loop over the keyword items, eleven '
              'suffix tests, slices, dynamically typed comparisons) and proved to return True exactly if every filter holds under the longest-matching-suffix reading of the property - for all keyword strings (SMT string '
              'theory, opaque/reveal for the quantified invariant); __get_task_attribute is proved to return the value of every public attribute incl. the property-backed id, estimate, spent, parent_id and None when lacking. '
-             'bulk __setattr__ is proved to set the attribute on exactly the listed tasks (plain attribute names). Level `other`: the comprehension in __call__ and remove_all are covered by the bounded stand-in only.',
-             ['_ImmutableTaskList.__call__ (list comprehension over search)', '_TaskList.remove_all', 'WBS.remove_all'],
-             ['library contracts (L): rich comparisons, `in` and re.search on dynamically typed values are uninterpreted predicates', 'SMT string theory of z3/cvc5'], design_ref='8/C18'),
+             'bulk __setattr__ is proved to set the attribute on exactly the listed tasks (plain attribute names). _ImmutableTaskList.__call__ itself is proved to return, on every branch, exactly the listed tasks that satisfy the '
+             'callable key / every keyword filter, without changing the list, and to refuse only a key that is neither None nor callable. Level `other`: remove_all is covered by the bounded stand-in only.',
+             ['_TaskList.remove_all', 'WBS.remove_all'],
+             ['library contracts (L): rich comparisons, `in` and re.search on dynamically typed values are uninterpreted predicates', 'SMT string theory of z3/cvc5',
+              'semantics of a list comprehension with a condition (the elements that satisfy it, in order) is the assumed contract of the built-in (T1)'], design_ref='8/C18'),
     'C20': P('other', 'contract-based deductive verification of utils.py with an abstract text theory (len, visible length, concatenation, spaces): colored_text has visible width max(len(text), width); '
              '_TextTableRow.repr has visible width sum(width_i + 2) plus the borders, for every number of columns (loop invariant) given that every cell fits its column. Level `other`: TextTable.text_repr '
              '(column widths = longest cell, one line per row), _Repr (rows = depth-first listing, indentation, link cells) and the usage table are covered by the bounded stand-in only.',
